@@ -115,7 +115,8 @@ func extractSevOvmfMetadata(guidBlockMap map[string][]byte, firmware []byte) ([]
 	// The length of each section is expected to be 12, The length of the
 	// offset is expected to be 16. Given the fact that we have both "length"
 	// and "sections" we can verify those fields against each other
-	if sevMetadata.Length != sevMetadata.Sections*abi.SizeofSevMetadataSection+abi.SizeofSevMetadata {
+	// 64-bit arithmetic: Sections*SizeofSevMetadataSection must not wrap around in 32 bits.
+	if uint64(sevMetadata.Length) != uint64(sevMetadata.Sections)*abi.SizeofSevMetadataSection+abi.SizeofSevMetadata {
 		return nil, fmt.Errorf("mismatch between SEV memory offset length: %d and SEV metadata offset sections count: %d",
 			sevMetadata.Length, sevMetadata.Sections)
 	}
